@@ -77,7 +77,6 @@ class _Child:
 
     def _stderr_tail(self):
         try:
-            self.errf.flush()
             return open(self.errpath, "rb").read()[-1500:].decode("utf8", "replace")
         except OSError:
             return ""
@@ -85,7 +84,7 @@ class _Child:
     def _fail(self, msg):
         self.dead = msg
         self.stop()
-        raise HarnessError(f"C55 child interpreter: {msg}\n--- child stderr ---\n{self._stderr_tail()}")
+        raise HarnessError(f"C55 child interpreter: {msg}\n--- child stderr ---\n{self._stderr_tail()}")  # a harness error (exit 2), never a violation
 
     def _read(self):
         r, _, _ = select.select([self.p.stdout], [], [], self.TIMEOUT)
@@ -622,7 +621,7 @@ def _anon_programs(draw):
 
 
 RS_OPS = ["fetchone", "fetchmany", "all", "first", "one", "one_or_none", "scalar", "scalar_one", "scalar_one_or_none", "next", "iter", "partitions",
-          "raw_all_tuples", "freeze", "close", "keys", "fetchone", "fetchmany", "all"]
+          "raw_all_tuples", "raw_all_tuples", "raw_all_tuples", "freeze", "close", "keys", "fetchone", "fetchmany", "all"]
 
 
 @st.composite
@@ -647,7 +646,7 @@ def _result_programs(draw):
         op = draw(st.sampled_from(RS_OPS))
         ops.append([op, draw(st.one_of(st.none(), st.integers(1, 4))) if op == "fetchmany" else draw(st.integers(1, 3))])
     return {
-        "keys": keys, "rowkind": draw(st.sampled_from(["tuple", "tuple", "list", "mytuple"])), "data": data,
+        "keys": keys, "rowkind": draw(st.sampled_from(["tuple", "list", "list", "mytuple"])), "data": data,
         "procs": draw(st.one_of(st.none(), st.lists(st.sampled_from(["none", "str", "double", "ident", "boom"]), min_size=1, max_size=4))),
         "uniq_filters": draw(st.one_of(st.none(), st.lists(st.sampled_from(["none", "str", "mod2"]), min_size=1, max_size=2))),
         "log": draw(st.integers(0, 3)) == 0, "mods": mods, "ops": ops,
